@@ -69,15 +69,15 @@ func writeTable(d, name string, mode os.FileMode) error {
 
 var fsStates = []fsState{
 	{name: "missing_file", setup: func(d string) error { return nil },
-		variants: []fsVariant{q("SELECT * FROM nosuch"), q("SELECT * FROM `nosuch.csv`"), q("UPDATE nosuch SET a = 1"), q("INSERT INTO `nosuch.csv` VALUES (1)"), q("SELECT * FROM CSV(',', `no/such/dir/t.csv`)"), q("SELECT * FROM INLINE::('nosuch.json')"), q("SELECT * FROM `{D}/nosuch.csv`"), q("ALTER TABLE nosuch ADD c"), q("SHOW FIELDS FROM nosuch")}},
+		variants: []fsVariant{q("SELECT * FROM nosuch"), q("SELECT * FROM `nosuch.csv`"), q("UPDATE nosuch SET a = 1"), q("INSERT INTO `nosuch.csv` VALUES (1)"), q("SELECT * FROM CSV(',', `no/such/dir/t.csv`)"), q("SELECT * FROM INLINE::('nosuch.json')"), q("SELECT * FROM `{D}/nosuch.csv`"), q("ALTER TABLE nosuch ADD c"), q("SHOW FIELDS FROM nosuch"), q("SELECT * FROM CSV_INLINE(',', `nosuch.csv`)"), q("SELECT * FROM JSON_INLINE('', nosuch)"), q("SELECT * FROM FILE::('nosuch.csv')"), q("SELECT * FROM FIXED('SPACES', INLINE::('nosuch.txt'))"), {args: []string{"-q", "fields", "nosuch.csv"}}}},
 	{name: "dir_as_file", setup: func(d string) error {
 		if err := os.Mkdir(filepath.Join(d, "t.csv"), 0755); err != nil {
 			return err
 		}
 		return os.Mkdir(filepath.Join(d, "u"), 0755)
-	}, variants: []fsVariant{q("SELECT * FROM `t.csv`"), q("SELECT * FROM t"), q("UPDATE `t.csv` SET a = 1"), q("SELECT * FROM u"), q("CREATE TABLE `t.csv` (a, b)"), q("SELECT * FROM JSON('', `t.csv`)"), q("SELECT * FROM INLINE::('t.csv')"), {args: []string{"-q", "-s", "t.csv"}}}},
+	}, variants: []fsVariant{q("SELECT * FROM `t.csv`"), q("SELECT * FROM t"), q("UPDATE `t.csv` SET a = 1"), q("SELECT * FROM u"), q("CREATE TABLE `t.csv` (a, b)"), q("SELECT * FROM JSON('', `t.csv`)"), q("SELECT * FROM INLINE::('t.csv')"), {args: []string{"-q", "-s", "t.csv"}}, q("SELECT * FROM CSV_INLINE(',', `t.csv`)"), q("SELECT * FROM JSON_INLINE('', `t.csv`)"), q("SELECT * FROM FILE::('t.csv')"), q("SELECT * FROM LTSV(`t.csv`)"), {args: []string{"-q", "fields", "t.csv"}}}},
 	{name: "unreadable_file", setup: func(d string) error { return writeTable(d, "t.csv", 0) },
-		variants: []fsVariant{q("SELECT * FROM t"), q("UPDATE t SET a = 1"), q("INSERT INTO t VALUES (3, 'z'); COMMIT;"), q("SELECT * FROM INLINE::('t.csv')"), {args: []string{"-q", "-s", "t.csv"}}, q("SOURCE `t.csv`")}},
+		variants: []fsVariant{q("SELECT * FROM t"), q("UPDATE t SET a = 1"), q("INSERT INTO t VALUES (3, 'z'); COMMIT;"), q("SELECT * FROM INLINE::('t.csv')"), {args: []string{"-q", "-s", "t.csv"}}, q("SOURCE `t.csv`"), q("SELECT * FROM CSV_INLINE(',', `t.csv`)"), q("SELECT * FROM JSON_INLINE('', t)"), q("SELECT * FROM FILE::('t.csv')"), q("SELECT * FROM CSV(',', `t.csv`)"), q("SELECT * FROM CSV(',', INLINE::('t.csv'))"), {args: []string{"-q", "fields", "t.csv"}}}},
 	{name: "readonly_dir_update", setup: func(d string) error { return writeTable(d, "t.csv", 0644) }, // directory 0755 root: nobody cannot create lock/temp files
 		variants: []fsVariant{q("UPDATE t SET b = 'z'; COMMIT;"), q("INSERT INTO t VALUES (3, 'z');"), q("DELETE FROM t; COMMIT; SELECT * FROM t;"), q("CREATE TABLE `new.csv` (a, b); COMMIT;"), q("SELECT * FROM t"), q("SELECT * FROM t FOR UPDATE"), q("ALTER TABLE t ADD c; COMMIT;"), {args: []string{"-q", "-o", "result.txt", "SELECT * FROM t"}}}},
 	{name: "readonly_file_update", setup: func(d string) error {
@@ -105,7 +105,7 @@ var fsStates = []fsState{
 			return err
 		}
 		return os.Symlink(filepath.Join(d, "nowhere.csv"), filepath.Join(d, "t.csv"))
-	}, variants: []fsVariant{q("SELECT * FROM t"), q("SELECT * FROM `t.csv`"), q("UPDATE t SET a = 1"), q("INSERT INTO `t.csv` VALUES (1)"), q("CREATE TABLE `t.csv` (a, b); INSERT INTO `t.csv` VALUES (1, 2); COMMIT;"), q("CREATE TABLE IF NOT EXISTS `t.csv` (a, b)"), {args: []string{"-q", "-o", "t.csv", "SELECT 1"}}, {args: []string{"-q", "-s", "t.csv"}}}},
+	}, variants: []fsVariant{q("SELECT * FROM t"), q("SELECT * FROM `t.csv`"), q("UPDATE t SET a = 1"), q("INSERT INTO `t.csv` VALUES (1)"), q("CREATE TABLE `t.csv` (a, b); INSERT INTO `t.csv` VALUES (1, 2); COMMIT;"), q("CREATE TABLE IF NOT EXISTS `t.csv` (a, b)"), {args: []string{"-q", "-o", "t.csv", "SELECT 1"}}, {args: []string{"-q", "-s", "t.csv"}}, q("SELECT * FROM CSV_INLINE(',', `t.csv`)"), q("SELECT * FROM INLINE::('t.csv')"), q("SELECT * FROM FILE::('t.csv')"), q("SELECT * FROM JSON('', `t.csv`)")}},
 	{name: "symlink_loop", setup: func(d string) error {
 		if err := os.Symlink("b.csv", filepath.Join(d, "a.csv")); err != nil {
 			return err
@@ -166,6 +166,23 @@ var fsStates = []fsState{
 		variants: []fsVariant{q("SELECT * FROM STDIN"), q("SELECT * FROM t"), q("PRINT 1")}},
 	{name: "stdout_dev_full", setup: func(d string) error { return writeTable(d, "t.csv", 0644) }, shell: `exec "$0" "$@" > /dev/full`,
 		variants: []fsVariant{q("SELECT * FROM t"), q("PRINT 1"), {args: []string{"-q", "-f", "JSON", "SELECT * FROM t"}}}},
+	{name: "held_control_files", setup: func(d string) error {
+		// another process holds the update lock of t.csv, a read lock of u.csv, and left a temporary file of v.csv;
+		// the child may create files in the directory and waits 0.3 s for locks
+		if err := os.Chmod(d, 0777); err != nil {
+			return err
+		}
+		for _, n := range []string{"t.csv", "u.csv", "v.csv", ".t.csv.lock", ".u.csv.abcdefghijkl.rlock", ".v.csv.temp"} {
+			if err := writeTable(d, n, 0666); err != nil {
+				return err
+			}
+		}
+		return nil
+	}, variants: []fsVariant{q("SELECT * FROM t"), q("SELECT * FROM `t.csv`"), q("SELECT * FROM CSV(',', `t.csv`)"), q("SELECT * FROM CSV_INLINE(',', `t.csv`)"), q("SELECT * FROM INLINE::('t.csv')"), q("SELECT * FROM FILE::('t.csv')"),
+		q("SELECT * FROM JSON_INLINE('', `t.csv`)"), q("SELECT * FROM CSV(',', INLINE::('t.csv'))"), q("SELECT * FROM t; SELECT * FROM CSV_INLINE(',', t)"), q("UPDATE t SET a = 1"), q("SELECT * FROM t FOR UPDATE"), q("INSERT INTO t VALUES (1, 2)"),
+		q("CREATE TABLE `t.csv` (a)"), q("ALTER TABLE t ADD c"), q("SELECT * FROM u JOIN INLINE::('t.csv') i ON TRUE"), {args: []string{"-q", "-s", "t.csv"}}, {args: []string{"-q", "-o", "t.csv", "SELECT 1"}}, {args: []string{"-q", "fields", "t.csv"}},
+		q("SELECT * FROM u"), q("SELECT * FROM INLINE::('u.csv')"), q("UPDATE u SET a = 1; COMMIT;"), q("SELECT * FROM u FOR UPDATE"), q("DELETE FROM u; ROLLBACK;"),
+		q("SELECT * FROM v"), q("SELECT * FROM CSV_INLINE(',', v)"), q("UPDATE v SET a = 1; COMMIT;"), q("INSERT INTO v VALUES (1, 2); COMMIT; SELECT * FROM INLINE::('v.csv');")}},
 	{name: "empty_and_binary_files", setup: func(d string) error {
 		if err := os.WriteFile(filepath.Join(d, "empty.csv"), nil, 0644); err != nil {
 			return err
@@ -192,6 +209,9 @@ func genFS(t *rapid.T) fsCase {
 		names = append(names, s.name)
 	}
 	n := fw.PickU(t, "state", names)
+	if fw.Pct(t, "heldControlFiles", 14) {
+		n = "held_control_files" // the state with the most statements
+	}
 	var vs []int
 	for i, v := range fsStateByName(n).variants {
 		if avoidKnownCwdRemovedNil && v.known == "cwd_removed_nil_error" {
@@ -355,7 +375,7 @@ func TestC19FSStates(t *testing.T) {
 	fw.Run(t, fw.Spec[fsCase]{
 		ID: "C19", Name: "fs_states", Quick: 640, Thorough: 12800,
 		Gen: genFS, Check: checkFS,
-		Rule:        "the csvq binary run as uid/gid 65534 (so permission bits bite) in a fresh directory prepared as one of: missing file | directory in place of a file | unreadable file (mode 000) | read-only directory with UPDATE/INSERT/DELETE/CREATE + COMMIT | read-only file | working directory removed before exec (sh -c 'cd gone && rmdir ../gone && exec csvq') | dangling symlink | symlink loop | FIFO as table with and without a writer | --out to an existing read-only/writable file, a directory, a missing directory, an unwritable directory, /dev/full | missing --source | --source that is a directory | missing --repository / repository that is a file | directory without search permission | over-long, NUL- and newline-containing names | missing HOME | stdin that is a directory / closed stdin and stdout | stdout on /dev/full | empty and binary files; x 3-17 statements per state (SELECT, DML, DDL, table objects, INLINE::, SOURCE, CHDIR, flags). Oracle: the process terminates (20 s watchdog, re-tried once with 80 s), is not killed by a signal, exit code in {0,1,2,4,8,16,32,64}, neither stream contains 'Fatal Error', 'panic:' or 'goroutine '. non-trivial = every (state, statement) pair; distinct by (state, statement, exit code)",
+		Rule:        "the csvq binary run as uid/gid 65534 (so permission bits bite) in a fresh directory prepared as one of: missing file | directory in place of a file | unreadable file (mode 000) | read-only directory with UPDATE/INSERT/DELETE/CREATE + COMMIT | read-only file | working directory removed before exec (sh -c 'cd gone && rmdir ../gone && exec csvq') | dangling symlink | symlink loop | FIFO as table with and without a writer | --out to an existing read-only/writable file, a directory, a missing directory, an unwritable directory, /dev/full | missing --source | --source that is a directory | missing --repository / repository that is a file | directory without search permission | over-long, NUL- and newline-containing names | missing HOME | stdin that is a directory / closed stdin and stdout | stdout on /dev/full | control files of another process in place (held update lock .t.csv.lock, held read lock .u.csv.<id>.rlock, left-over .v.csv.temp) with a 0.3 s --wait-timeout, read through plain names, table objects, CSV_INLINE / JSON_INLINE / INLINE:: / FILE::, DML, DDL, --source, --out, the fields subcommand | empty and binary files; x 3-27 statements per state (SELECT, DML, DDL, table objects, INLINE::, SOURCE, CHDIR, flags). Oracle: the process terminates (20 s watchdog, re-tried once with 80 s), is not killed by a signal, exit code in {0,1,2,4,8,16,32,64}, neither stream contains 'Fatal Error', 'panic:' or 'goroutine '. non-trivial = every (state, statement) pair; distinct by (state, statement, exit code)",
 		Assumptions: []string{"if the harness cannot start a child under uid 65534 the states are discarded and counted in measured.fs_states_skipped_no_unprivileged_child, not passed"},
 	})
 }
